@@ -1509,7 +1509,13 @@ func (ex *Exec) rangeNext(it *rangeIter, n *ssa.Next) Value {
 		return Tuple{tTrue, e.K, copyVal(cur)}
 	}
 	tup := n.Type().(*types.Tuple)
-	return Tuple{tFalse, zeroValue(tup.At(1).Type()), zeroValue(tup.At(2).Type())}
+	zv := func(t types.Type) Value {
+		if b, ok := t.(*types.Basic); ok && b.Kind() == types.Invalid {
+			return nil // component not used by the range statement
+		}
+		return zeroValue(t)
+	}
+	return Tuple{tFalse, zv(tup.At(1).Type()), zv(tup.At(2).Type())}
 }
 
 func (ex *Exec) mapGetNoFork(m *MapV, k Value) (Value, bool) {
